@@ -201,6 +201,8 @@ PositiveAckS(c, cfg) ==
 WaitingForAck(c, cfg, pkt) ==
   LET r == Retransmission(c, cfg, pkt) IN
   IF r.did THEN StopS(r.c)
+  \* a Finished PDU implies that the EOF PDU was received (its ACK was lost): handled by the next step in the same call
+  ELSE IF pkt.t = "FIN" THEN StepS(c, "WAITING_FOR_FINISHED")
   ELSE IF pkt.t # "ACK" THEN StopS(PositiveAckS(c, cfg))
   ELSE IF pkt.acked = "EOF" THEN StepS(c, "WAITING_FOR_FINISHED")
   ELSE c
@@ -245,7 +247,7 @@ AdmitS(h, cfg, pkt) ==
   ELSE IF pkt.h.qv # h.hdr.qv THEN <<"InvalidTransactionSeqNum", "none">>
   ELSE IF pkt.t \in {"FD", "MD", "EOF", "PROMPT"} \/ (pkt.t = "ACK" /\ pkt.acked = "FIN") THEN <<"InvalidPduForSourceHandler", "none">>
   ELSE IF h.hdr.mode = "UNACK" /\ pkt.t \in {"KA", "NAK"} THEN <<"PduIgnoredForSource", "ACK_MODE_PACKET_INVALID_MODE">>
-  ELSE IF pkt.t # "NAK" /\ h.step = "WAITING_FOR_EOF_ACK" /\ pkt.t # "ACK" THEN <<"PduIgnoredForSource", "NOT_WAITING_FOR_ACK">>
+  ELSE IF pkt.t # "NAK" /\ h.step = "WAITING_FOR_EOF_ACK" /\ pkt.t \notin {"ACK", "FIN"} THEN <<"PduIgnoredForSource", "NOT_WAITING_FOR_ACK">>
   ELSE IF pkt.t # "NAK" /\ h.step = "WAITING_FOR_FINISHED" /\ pkt.t # "FIN" THEN <<"PduIgnoredForSource", "NOT_WAITING_FOR_FINISHED_PDU">>
   ELSE <<"none", "none">>
 
